@@ -906,6 +906,25 @@ dir-contents top : -selection dir-contents any file : name f num-files == 2
              "dir d += {\n  dir n += {\n    dir m += {\n      file k\n    }\n  }\n}\n"},
     {'name': 'clash-in-cleanup', 'expect': 'HARD_ERROR', 'act': None,
      'text': "[setup]\ndir d = {\n  dir s\n}\n[cleanup]\ndir d += dir-contents-of -rel-home src1\n"},
+    # -with-pruned FILE-MATCHER FILES-MATCHER takes ONE (simple) files-matcher: an infix operator that follows belongs to
+    # the enclosing expression, whose model is the un-pruned directory (3 entries; 2 when `p` is pruned)
+    {'name': 'with-pruned-followed-by-operator', 'expect': 'PASS', 'act': None,
+     'text': '''[setup]
+dir top = {
+  dir p = {
+    file x
+  }
+  file y
+}
+[assert]
+dir-contents top : -recursive num-files == 3
+dir-contents top : -recursive -with-pruned name p num-files == 2
+dir-contents top : -recursive -with-pruned name p num-files == 2 && num-files == 3
+dir-contents top : -recursive ! ( -with-pruned name p num-files == 3 || num-files == 2 )
+dir-contents top : -recursive ( -with-pruned name p num-files == 3 || num-files == 3 )
+dir-contents top : -recursive -with-pruned name p ( num-files == 2 && ! num-files == 3 )
+dir-contents top : -recursive -selection type file num-files == 2 && num-files == 3
+'''},
     # names the file system refuses to look up (longer than NAME_MAX; through a symbolic-link loop), in an appended list
     {'name': 'append-name-too-long', 'expect': 'HARD_ERROR', 'act': None,
      'text': "[setup]\ndir d\ndir d += {\n  file %s\n}\n" % ('n' * 300)},
